@@ -41,7 +41,7 @@ import (
 func init() {
 	h.Register(&h.Prop{
 		ID:   "C14",
-		Rule: "scenario lines (stage functions under test × feeder programs × consumer modes × harness scripts with cancellation injected at each quiet point × data-branch choices); every line is repeated reps times in child processes and the set of observations is compared with the set the model allows; non-trivial = the script cancels the context or a feeder stops early (a stage failure); distinct = distinct line",
+		Rule: "scenario lines (stage functions under test × feeder programs × consumer modes × harness scripts with cancellation injected at each quiet point × data-branch choices); every line is repeated reps times in child processes and the set of observations is compared with the set the model allows; spin lines: the real fan-ins with an upstream and a caller that never stop, cancelled at a random instant of the streaming (the weakly fair counter-run's shape): the merged channel must be closed within 3 s, the number of items still forwarded and the closing latency are in the distribution; non-trivial = the script cancels the context or a feeder stops early (a stage failure); distinct = distinct line",
 		Gen:  gen,
 		Exec: execLine,
 	})
@@ -699,6 +699,16 @@ func oracle(s *scen, outs []string) string {
 var handedOff = map[string]bool{"dosnode.dispatchSign.out": true, "dkg.askMembers.out": true}
 
 func execLine(line string) h.Result {
+	if strings.HasPrefix(line, "child spin ") {
+		o, d, err := runSpinOnce(parseSpin(strings.TrimPrefix(line, "child ")))
+		if err != nil {
+			return h.Result{Impl: "error " + h.OneLine(err.Error())}
+		}
+		return h.Result{Impl: o, Oracle: d} // second column = the measurements, read by execSpin only
+	}
+	if strings.HasPrefix(line, "spin ") {
+		return execSpin(line)
+	}
 	if strings.HasPrefix(line, "child full ") {
 		o, err := runFullOnce(parseFull(strings.TrimPrefix(line, "child ")))
 		if err != nil {
